@@ -24,6 +24,16 @@ def main():
         jobs.append({"hash": 1, "tag": "mates-fresh", "searches": [{"pos": a, "depth": 1 + i % maxd}]})
         jobs.append({"hash": 1, "tag": "mates-warm", "searches": [{"pos": b, "depth": 3 + i % 3}, {"pos": a, "depth": 1 + (i // 2) % maxd},
                                                                    {"pos": b, "depth": 2 + i % 4}]})
+    # games: the engine plays both sides of an ending on one table (the root is the previous root with the previous best move
+    # played), as in any game in which the tables are kept between moves
+    for i in range(0, min(len(mates), 60 if q else 1200), 2):
+        d = 5 + i % 3
+        jobs.append({"hash": 1, "tag": "self-play", "searches": [{"pos": mates[i], "depth": d}] +
+                     [{"follow": True, "depth": 5 + (i + k) % 3} for k in range(10 if q else 24)]})
+    for f in ["7k/8/4K3/8/8/8/Q7/8 b - - 0 1", "8/1k6/3K4/8/8/8/7Q/8 b - - 0 1", "8/8/1k6/3K4/8/8/7Q/8 b - - 0 1",
+              "6k1/5p1p/6p1/8/8/8/1Q3PPP/3R2K1 b - - 0 1", "8/k7/3K4/8/8/8/7Q/8 b - - 0 1", "8/8/8/3k4/8/8/3K4/6R1 w - - 0 1"]:
+        jobs.append({"hash": 1, "tag": "self-play-long", "searches": [{"pos": searches.fen2pos(f), "depth": 9 if q else 10}] +
+                     [{"follow": True, "depth": 7} for k in range(12)]})
     # best line ends in an immediately recognised draw (dead material after a capture, fifty-move rule next ply)
     draws = searches.draw_positions(chk, [chk.seed % 8, (chk.seed + 3) % 8] if q else list(range(8)), 24 if q else 3)
     rng.shuffle(draws)
